@@ -23,6 +23,22 @@ package governance
 
 // updateInnerRing: the lists must pair up, and the result never has more keys than the
 // old inner ring (every old key yields at most one key).
+// A key of the old inner ring that is being replaced (it equals some key of `before`) never
+// stays in the list as itself: matchedAt(i) says that the i-th old key was found among the
+// replaced ones; the search through `before` goes on only while it was not.
+//@ ghost field matchedAt(i int) bool
+//@ callrule c36_replaced_key_found in updateInnerRing
+//@   callee (*keys.PublicKey).Equal
+//@   pureeffect
+//@   assigns matchedAt
+//@   defines matchedAt(i) == (old(matchedAt(i)) || result) && (forall k int :: k != i ==> matchedAt(k) == old(matchedAt(k)))
+//@ callrule c36_list_membership in updateInnerRing
+//@   callee (keys.PublicKeys).Contains
+//@   pureeffect
+//@ func updateInnerRing
+//@   valid forall k int :: !matchedAt(k)
+//@   loop 1 invariant forall k int :: k > rangeindex ==> !matchedAt(k)
+//@   loop 2 invariant [search_through_the_replaced_keys_goes_on_only_without_a_match] !matchedAt(i) && (forall k int :: k > i ==> !matchedAt(k))
 //@ func updateInnerRing
 //@   loop 1 invariant 0 <= len(result) && len(result) <= rangeindex + 1 && rangeindex + 1 <= len(innerRing) && lnBefore == len(before) && lnBefore == len(after)
 //@   loop 2 invariant len(result) <= i && i < len(innerRing) && lnBefore == len(before) && lnBefore == len(after)
